@@ -1211,6 +1211,17 @@ def run(chk):
         if not f.get("body") or not f["file"].endswith(("EclipseGrid.cpp", "EGrid.cpp")):
             continue
         groups = {}
+        par_gh = cow.parent_map(f)
+        blk_no = {}
+
+        def block_of(n_):
+            """ordinal of the innermost enclosing block: the three slot accesses of one site sit in one block"""
+            cur_ = n_
+            while id(cur_) in par_gh:
+                cur_ = par_gh[id(cur_)]
+                if cur_.get("k") == "Block":
+                    break
+            return blk_no.setdefault(id(cur_), len(blk_no))
         for n in walk(f["body"]):
             if n["k"] != "Bin" or not n.get("asg") or n.get("op") != "=":
                 continue
@@ -1229,10 +1240,10 @@ def run(chk):
             ls, rs_ = slot(l_), slot(r_)
             if ls and ls[0] == "gridhead" and ls[1] in (1, 2, 3):
                 ax = rs_[1] if rs_ else AX.get(r_.get("n"))
-                groups.setdefault(("write", n["l"] // 8), []).append((ls[1], ax, n))
+                groups.setdefault(("write", block_of(n)), []).append((ls[1], ax, n))
             elif rs_ and rs_[0] == "gridhead" and rs_[1] in (1, 2, 3):
                 ax = ls[1] if ls else AX.get(l_.get("n"))
-                groups.setdefault(("read:" + (ls[0] if ls else "dims"), n["l"] // 8), []).append((rs_[1], ax, n))
+                groups.setdefault(("read:" + (ls[0] if ls else "dims"), block_of(n)), []).append((rs_[1], ax, n))
         for (kind, _), items in sorted(groups.items()):
             n_sites += 1
             key = "%s:%s@%d" % (f["q"].split("::")[-1], kind, n_sites)
